@@ -41,7 +41,7 @@ def replay(ctx: common.Ctx, path: str, prop: str) -> int:
     if 'edit_seed' in w and 'text' in w:
         from harness import doc_checks, treewalk
         doc, hist = doc_checks.replay_history(w['text'], w.get('auto_claim', True), w.get('lf', 1000), w['edit_seed'],
-                                              w.get('n_edits', len(w.get('history', []))))
+                                              w.get('n_edits', len(w.get('history', []))), w.get('p_focus', 0.0))
         print('replayed history:', hist)
         print('wf problems:', treewalk.wf_problems(doc)[:5])
     return 1
